@@ -115,6 +115,19 @@ func c07HasLarge(cs *c07Case) bool {
 	return false
 }
 
+func c07HasNegative(cs *c07Case) bool {
+	for _, p := range append(append([]c07Prof(nil), cs.Sources...), cs.Bases...) {
+		for _, sm := range p.Samples {
+			for _, v := range sm.Values {
+				if v < 0 {
+					return true
+				}
+			}
+		}
+	}
+	return false
+}
+
 func c07MixedSignDuplicates(cs *c07Case) bool {
 	for _, p := range cs.Bases {
 		col := -1
@@ -302,6 +315,16 @@ func (run *c07Run) checkCLI(orig *c07Case, o *c07CLIOut) bool {
 	} else if cs.Stream == "main" {
 		c.Res.Hit("stream:main-unaffected-by-known-findings")
 	}
+	pruned := false
+	for _, p := range append(append([]c07Prof(nil), orig.Sources...), orig.Bases...) {
+		pruned = pruned || p.Drop != ""
+	}
+	if pruned && dropStream {
+		// drop_frames prune the result, so it cannot be matched against the pinned model: keep the
+		// known ScaleN finding out of these tuples altogether
+		c.Res.Hit("dropframes-on-scalen-drop-stream-skipped")
+		return nt
+	}
 	pinnedExplains := dropStream && pcls == "ok" && ca == cmPinned
 	realViolation := c.Violation
 	violation := func(s, what string, cse any) {
@@ -338,7 +361,7 @@ func (run *c07Run) checkCLI(orig *c07Case, o *c07CLIOut) bool {
 	okDirect := true
 
 	// ---- weight level: sum of sources minus bases, converted, nothing dropped ----
-	if !cs.Normalize {
+	if !cs.Normalize && !pruned {
 		expW := c07ExpectedW(cs, outTypes, false)
 		if c07WStr(expW) != c07WStr(actW) {
 			okDirect = false
@@ -391,7 +414,8 @@ func (run *c07Run) checkCLI(orig *c07Case, o *c07CLIOut) bool {
 		if topAll != nil && !cs.Normalize && trBad == "" {
 			expFlat, expCum, expTr := map[string]int64{}, map[string]int64{}, map[string]int64{}
 			indiv := true
-			var baseTotal int64
+			var baseTotal, sumTotal int64
+			sumTotalOK := !c07HasNegative(orig)
 			for k := range o.TopX {
 				sign := int64(1)
 				if k >= len(cs.Sources) {
@@ -421,6 +445,10 @@ func (run *c07Run) checkCLI(orig *c07Case, o *c07CLIOut) bool {
 				}
 				if sign < 0 {
 					baseTotal = tx.Total
+				}
+				sumTotal += tx.Total
+				for _, r := range tx.Rows {
+					sumTotalOK = sumTotalOK && r.Flat >= 0
 				}
 			}
 			if indiv && !c07HasLarge(cs) {
@@ -458,6 +486,14 @@ func (run *c07Run) checkCLI(orig *c07Case, o *c07CLIOut) bool {
 						}
 						okDirect = false
 						break
+					}
+				}
+				// totals: with no negative value in the column the total of the combined report is the sum of the totals
+				if cs.Mode == "plain" && sumTotalOK && dupName == "" {
+					c.Res.Hit("plain-total-checked")
+					if topAll.Total != sumTotal {
+						violation(sig("cli/plain/total"), fmt.Sprintf("total of the combined report %d, sum of the totals of the individual reports %d", topAll.Total, sumTotal), orig)
+						okDirect = false
 					}
 				}
 				// -diff_base: percentages relative to the base total
@@ -529,6 +565,11 @@ func (run *c07Run) checkCLI(orig *c07Case, o *c07CLIOut) bool {
 	// ---- model ----
 	if c07HasLarge(cs) {
 		return nt
+	}
+	if pruned {
+		// the -proto result is pruned by drop_frames: the model (unpruned) is not compared; the
+		// report-level oracles above and the Spec comparison below (on the real result) remain
+		cm = ca
 	}
 	if cm != ca && cs.Normalize && !pinnedExplains && c07WithinRounding(cs, mp.Samples, actM) {
 		// -normalize rounds once per sample; where equal stacks are merged before or after the
